@@ -25,7 +25,7 @@ Definition mem (s : string) (l : list string) : bool := existsb (String.eqb s) l
 
 (* ------------------------------------------------------------------------------------------- *)
 (* PulseSequence(H_c, H_n, dt, basis)                                                           *)
-Inductive dtv := DPos | DZero | DNeg | DComplex.
+Inductive dtv := DPos | DZero | DNeg | DComplex | DNonFinite (* nan, inf *).
 Record dt_d := { dt_haslen : bool; dt_vals : list dtv }.
 Inductive okind := OArray | OConvertible (* Qobj, sparse, ... *) | OBad.
 Record oper_d := { o_kind : okind; o_shape : list nat }.
@@ -36,7 +36,7 @@ Inductive basis_d := BDefault | BNotBasis | BBasis (shape : list nat).
 Record ctor_d := { k_dt : dt_d; k_Hc : H_d; k_Hn : H_d; k_basis : basis_d }.
 
 Definition dtv_real (v : dtv) : bool := match v with DComplex => false | _ => true end.
-Definition dtv_nonneg (v : dtv) : bool := match v with DNeg => false | _ => true end.
+Definition dtv_nonneg (v : dtv) : bool := match v with DNeg | DNonFinite => false | _ => true end.   (* (dt < 0).any() or not isfinite(dt).all() *)
 Definition okind_ok (k : okind) : bool := match k with OBad => false | _ => true end.
 Definition square (s : list nat) : bool := match s with [r; c] => r =? c | _ => false end.
 Definition entry_ids (noise : bool) (es : list entry_d) : list string :=
@@ -72,10 +72,8 @@ Definition validate_H (noise : bool) (n_dt : nat) (H : H_d) : result (list nat) 
       end
   end.
 
-Definition validate_ctor (k : ctor_d) : verdict :=
-  check (dt_haslen (k_dt k)) TypeError ;;
-  check (forallb dtv_real (dt_vals (k_dt k))) ValueError ;;
-  check (forallb dtv_nonneg (dt_vals (k_dt k))) ValueError ;;
+(* the part of _parse_args after the tests on dt *)
+Definition validate_ctor_rest (k : ctor_d) : verdict :=
   match validate_H false (length (dt_vals (k_dt k))) (k_Hc k) with
   | Raise e => Raise e
   | Ok shc =>
@@ -90,6 +88,12 @@ Definition validate_ctor (k : ctor_d) : verdict :=
           end
       end
   end.
+Definition validate_ctor (k : ctor_d) : verdict :=
+  check (dt_haslen (k_dt k)) TypeError ;;
+  check (negb (length (dt_vals (k_dt k)) =? 0)) ValueError ;;                 (* at least one time step *)
+  check (forallb dtv_real (dt_vals (k_dt k))) ValueError ;;
+  check (forallb dtv_nonneg (dt_vals (k_dt k))) ValueError ;;
+  validate_ctor_rest k.
 
 (* ------------------------------------------------------------------------------------------- *)
 (* pulses as seen by the composition functions: tags identify equal arrays (operators by content,
@@ -170,7 +174,8 @@ Definition validate_concat (c : concat_d) : verdict :=
       if cc_calc_pc c then Raise ValueError else ok
   end.
 
-Definition validate_concat_periodic (p : pulse_d) : verdict := check (p_ispulse p) TypeError.
+Definition validate_concat_periodic (p : pulse_d) (repeats : Z) : verdict :=
+  check (p_ispulse p) TypeError ;; check (1 <=? repeats)%Z ValueError.
 
 (* ------------------------------------------------------------------------------------------- *)
 (* remap / extend                                                                               *)
@@ -200,12 +205,13 @@ Definition validate_remap (r : remap_d) : verdict :=
                end
   end.
 
-Inductive qubits_d := QInt (q : nat) | QTuple (qs : list nat).
+Inductive qubits_d := QInt (q : nat) | QTuple (qs : list nat) | QNonInt (* e.g. 0.5 *).
 Record ext_entry := { x_pulse : pulse_d; x_qubits : qubits_d; x_mapping : option (list (string * string)) }.
 Record extend_d := { x_entries : list ext_entry; x_ndt : nat; x_N : option nat; x_dpq : nat; x_add : option H_d;
                      x_cache_diag : option bool; x_cache_ff : option bool; x_omega_given : bool }.
-Definition qubit_list (q : qubits_d) : list nat := match q with QInt i => [i] | QTuple l => l end.
-Definition is_single (q : qubits_d) : bool := match q with QInt _ => true | QTuple l => length l =? 1 end.
+Definition qubit_list (q : qubits_d) : list nat := match q with QInt i => [i] | QTuple l => l | QNonInt => [] end.
+Definition qubit_is_int (q : qubits_d) : bool := match q with QNonInt => false | _ => true end.
+Definition is_single (q : qubits_d) : bool := match q with QInt _ | QNonInt => true | QTuple l => length l =? 1 end.
 Fixpoint sortedb (l : list nat) : bool := match l with a :: ((b :: _) as r) => (a <? b) && sortedb r | _ => true end.
 Fixpoint nat_uniqueb (l : list nat) : bool := match l with [] => true | x :: r => negb (existsb (Nat.eqb x) r) && nat_uniqueb r end.
 Fixpoint ins_nat (x : nat) (l : list nat) : list nat :=
@@ -213,7 +219,7 @@ Fixpoint ins_nat (x : nat) (l : list nat) : list nat :=
 Definition sort_nat (l : list nat) : list nat := fold_right ins_nat [] l.
 (* multi-qubit pulses are brought to sorted qubit order before their identifiers get the default suffix *)
 Definition suffix (q : qubits_d) : string :=
-  match q with QInt i => dec i | QTuple l => String.concat "" (map dec (if length l =? 1 then l else sort_nat l)) end.
+  match q with QInt i => dec i | QNonInt => EmptyString | QTuple l => String.concat "" (map dec (if length l =? 1 then l else sort_nat l)) end.
 Definition default_map (q : qubits_d) (ids : list string) : list string :=
   map (fun s => String.append s (String.append "_" (suffix q))) ids.
 Definition ext_ids (noise : bool) (e : ext_entry) : result (list string) :=
@@ -230,6 +236,7 @@ Definition validate_extend (x : extend_d) : verdict :=
   let es := x_entries x in
   check (negb (length es =? 0)) ValueError ;;
   check (forallb (fun e => p_ispulse (x_pulse e)) es) TypeError ;;
+  check (forallb (fun e => qubit_is_int (x_qubits e)) es) TypeError ;;           (* qubit indices are integers *)
   (* an unsorted multi-qubit mapping is remapped first: dimensions must match *)
   check (forallb (fun e => is_single (x_qubits e) || sortedb (qubit_list (x_qubits e)) ||
                            (p_d (x_pulse e) =? x_dpq x ^ length (qubit_list (x_qubits e)))) es) ValueError ;;
